@@ -122,6 +122,8 @@ BIG = "1" + "0" * 330  # an integer beyond the range of float
 LIT_FORMS = {
     "(+ %s -" + BIG + ")": 1, "(.bit-length -" + BIG + ")": 0, "(** -" + BIG + " 2)": 0, "(- " + BIG + " %s)": 1, "[-1e400 1e400 (- 1e400) %s]": 1,
     "(.is-integer -1e400)": 0, "(** -1e400 %s)": 1,
+    "((fn [#^ int #* xs] (len xs)) %s %s)": 2, "((fn [a #^ dict #** kw] [a (sorted (.items kw))]) %s :k %s)": 2, "((fn [#^ int a] a) %s)": 1,
+    "((fn [a * #^ int b] [a b]) %s :b %s)": 2, "((fn [#^ int a / b] [a b]) %s %s)": 2, "((fn [#^ int #* xs #^ int #** kw] [xs (sorted kw)]) %s :z %s)": 2,
     "(** %s %s)": 2, "(** %s %s %s)": 3, "(- %s)": 1, "(- (- %s))": 1, "(+ %s %s)": 2, "(* %s %s)": 2, "(/ %s %s)": 2, "(// %s %s)": 2, "(% %s %s)": 2,
     "(. %s real)": 1, "(. %s imag)": 1, "(.conjugate %s)": 1, "(.bit-length %s)": 1, "(.is-integer %s)": 1, "(get [1 2 3] %s)": 1, "(get %s 0)": 1,
     "(cut [1 2 3] %s %s)": 2, "(< %s %s %s)": 3, "(bnot %s)": 1, "(not %s)": 1, "(abs %s)": 1, "(if %s %s %s)": 3, "(@ %s %s)": 2, "(<< %s %s)": 2,
@@ -413,6 +415,22 @@ def shard(ctx):
         ctx.case(key=src, nontrivial=True, cls=["foreign:" + case["foreign"]], sample=src.replace("\n", " ")[:300])
         if r is not None:
             ctx.fail(case, r[0], r[1])
+
+    # literal forms, enumerated: every pooled literal in every operand position of every form, the other positions rotating
+    # through the pool (thorough: every pair for the binary forms)
+    k = 0
+    for f in sorted(LIT_FORMS):
+        n = LIT_FORMS[f]
+        combos = [[]] if n == 0 else []
+        for pos in range(n):
+            for i, lit in enumerate(LIT_POOL):
+                combos.append([lit if q == pos else LIT_POOL[(i * 7 + q * 3 + len(f)) % len(LIT_POOL)] for q in range(n)])
+        if not ctx.quick and n == 2:
+            combos = [[a, b] for a in LIT_POOL for b in LIT_POOL]
+        for lits in combos:
+            k += 1
+            if k % ctx.n == ctx.k:
+                one_foreign(dict(foreign="literals", case=dict(form=f, lits=lits)))
 
     ctx.hyp(foreign, one_foreign, ctx.per_shard(1400, 150000), "foreign")
 
